@@ -606,3 +606,26 @@ package trace
 //@   assert@return#2 : $ret1 != nil
 //@   assert@return#3 : $ret1 != nil
 //@   assert@return#4 : $ret1 == nil
+
+// ======================================================================== C09 random ID generator (id_generator.go)
+// every ID handed out is valid (non-zero): a draw is repeated until the ID drawn - the one that is returned - is non-zero. The
+// random source is only used under the generator's mutex. (Uniqueness is probabilistic and not decided; termination is not claimed.)
+//@ guarded_by randomIDGenerator.Mutex: randSource
+//@ func (gen *randomIDGenerator) NewSpanID(ctx context.Context, traceID trace.TraceID) (sid trace.SpanID)
+//@   prop C09
+//@   acquires gen.Mutex
+//@   overflow assumed
+//@   unchecked frame,no-panic math/rand fills the local array
+//@   requires gen != nil
+//@   ensures sid.IsValid()
+//@   assert@call Rand.Read#* : holds(gen.Mutex) && len($arg1) == 8
+//@ func (gen *randomIDGenerator) NewIDs(ctx context.Context) (tid trace.TraceID, sid trace.SpanID)
+//@   prop C09
+//@   acquires gen.Mutex
+//@   overflow assumed
+//@   unchecked frame,no-panic math/rand fills the local arrays
+//@   requires gen != nil
+//@   ensures tid.IsValid() && sid.IsValid()
+//@   assert@call Rand.Read#1 : holds(gen.Mutex) && len($arg1) == 16
+//@   assert@call Rand.Read#2 : holds(gen.Mutex) && len($arg1) == 8
+//@   loop#2 invariant tid.IsValid()
